@@ -250,14 +250,15 @@ type world struct {
 	noPark   bool
 	closing  bool
 
-	viols    []violation
-	inconcl  []string
-	hookHits map[string]int
-	handouts map[string]int
-	invokes  int
-	actions  []string
-	states   map[string]struct{}
-	unattrib int
+	viols        []violation
+	inconcl      []string
+	hookHits     map[string]int
+	handouts     map[string]int
+	invokes      int
+	actions      []string
+	states       map[string]struct{}
+	unattrib     int
+	anonReleases int // releases performed by goroutines the pool spawned itself
 
 	acqOps, relOps, createOps, killOps []histOp
 	lastDump                           []gInfo
@@ -393,6 +394,9 @@ func (w *world) hook(point string) {
 	case hpRelease:
 		if a.lastConn != nil {
 			a.lastConn.released++
+		}
+		if a.kind == akAnon {
+			w.anonReleases++
 		}
 	}
 	w.logf(t, point, a, -1)
